@@ -9,6 +9,8 @@
 use crate::util::*;
 use crate::with_d;
 use easy_ml::matrices::iterators as mi;
+use easy_ml::matrices::iterators::WithIndex;
+use easy_ml::numeric::ZeroOne;
 use easy_ml::matrices::views::{
     IndexRange as MIndexRange, MatrixMut, MatrixRange, MatrixRef, MatrixReverse, MatrixView, Reverse,
 };
@@ -29,10 +31,14 @@ use std::cell::RefCell;
 // ---------------------------------------------------------------------------------------------
 
 const PLACEHOLDER: u64 = u64::MAX;
+/// the placeholder made by `ZeroOne::zero` (the `from_numeric` constructors)
+const ZERO_PLACEHOLDER: u64 = u64::MAX - 1;
 
 thread_local! {
     /// drops seen per id (index = id), placeholders created, placeholders dropped
     static DROPS: RefCell<(Vec<u32>, u64, u64)> = RefCell::new((vec![], 0, 0));
+    /// placeholders made by `Default::default`, by `ZeroOne::zero`
+    static PRODUCERS: RefCell<(u64, u64)> = RefCell::new((0, 0));
 }
 
 /// A drop-counting element type without `Clone`/`Copy`; `Default` makes a placeholder.
@@ -46,14 +52,26 @@ impl Dc {
         Dc { id }
     }
     fn show(&self) -> String {
-        if self.id == PLACEHOLDER { "P".into() } else { self.id.to_string() }
+        if self.id == PLACEHOLDER || self.id == ZERO_PLACEHOLDER { "P".into() } else { self.id.to_string() }
     }
 }
 
 impl Default for Dc {
     fn default() -> Dc {
         DROPS.with(|d| d.borrow_mut().1 += 1);
+        PRODUCERS.with(|p| p.borrow_mut().0 += 1);
         Dc { id: PLACEHOLDER }
+    }
+}
+
+impl ZeroOne for Dc {
+    fn zero() -> Dc {
+        DROPS.with(|d| d.borrow_mut().1 += 1);
+        PRODUCERS.with(|p| p.borrow_mut().1 += 1);
+        Dc { id: ZERO_PLACEHOLDER }
+    }
+    fn one() -> Dc {
+        unreachable!("the iterators never ask for one()")
     }
 }
 
@@ -61,7 +79,7 @@ impl Drop for Dc {
     fn drop(&mut self) {
         DROPS.with(|d| {
             let mut d = d.borrow_mut();
-            if self.id == PLACEHOLDER {
+            if self.id == PLACEHOLDER || self.id == ZERO_PLACEHOLDER {
                 d.2 += 1;
             } else {
                 let i = self.id as usize;
@@ -76,6 +94,15 @@ impl Drop for Dc {
 
 fn drops_reset() {
     DROPS.with(|d| *d.borrow_mut() = (vec![], 0, 0));
+    PRODUCERS.with(|p| *p.borrow_mut() = (0, 0));
+}
+
+/// the placeholders came from the producer the constructor promises (`Default` / `zero`)
+fn producer_ok(numeric: bool) -> bool {
+    PRODUCERS.with(|p| {
+        let p = p.borrow();
+        if numeric { p.0 == 0 } else { p.1 == 0 }
+    })
 }
 
 fn drops_of(id: usize) -> u32 {
@@ -173,17 +200,13 @@ impl ShowIdx for (usize, usize) {
     }
 }
 
-/// `size_hint()`, `len()`, `next()` for `n` calls; `show` renders (and may keep) an item.
-fn drive<I: ExactSizeIterator>(
-    make: impl FnOnce() -> I,
+/// `size_hint()`, `len()`, `next()` for `n` calls on an existing iterator; false after a panic
+fn records<I: ExactSizeIterator>(
+    it: &mut I,
     n: usize,
     mut show: impl FnMut(I::Item) -> String,
-) -> String {
-    let mut it = match catch(make) {
-        Ok(it) => it,
-        Err(k) => return panic_str(k),
-    };
-    let mut recs: Vec<String> = vec![];
+    recs: &mut Vec<String>,
+) -> bool {
     for _ in 0..n {
         let head = match catch(|| it.size_hint()) {
             Err(k) => panic_str(k),
@@ -202,7 +225,7 @@ fn drive<I: ExactSizeIterator>(
         match catch(|| it.next()) {
             Err(k) => {
                 recs.push(format!("{}:{}", head, panic_str(k)));
-                break;
+                return false;
             }
             Ok(None) => recs.push(format!("{}:-", head)),
             Ok(Some(x)) => {
@@ -210,6 +233,46 @@ fn drive<I: ExactSizeIterator>(
                 recs.push(format!("{}:{}", head, s));
             }
         }
+    }
+    true
+}
+
+/// `size_hint()`, `len()`, `next()` for `n` calls; `show` renders (and may keep) an item.
+fn drive<I: ExactSizeIterator>(
+    make: impl FnOnce() -> I,
+    n: usize,
+    show: impl FnMut(I::Item) -> String,
+) -> String {
+    let mut it = match catch(make) {
+        Ok(it) => it,
+        Err(k) => return panic_str(k),
+    };
+    let mut recs: Vec<String> = vec![];
+    records(&mut it, n, show, &mut recs);
+    recs.join(";")
+}
+
+/// `k` calls on the with-index iterator, then `WithIndex::source()` hands back the wrapped
+/// iterator, which serves the remaining `n - k` calls
+fn drive_split<I: ExactSizeIterator>(
+    make: impl FnOnce() -> WithIndex<I>,
+    k: usize,
+    n: usize,
+    show_wi: impl FnMut(<WithIndex<I> as Iterator>::Item) -> String,
+    show: impl FnMut(I::Item) -> String,
+) -> String
+where
+    WithIndex<I>: ExactSizeIterator,
+{
+    let mut w = match catch(make) {
+        Ok(w) => w,
+        Err(e) => return panic_str(e),
+    };
+    let mut recs: Vec<String> = vec![];
+    let k = std::cmp::min(k, n);
+    if records(&mut w, k, show_wi, &mut recs) {
+        let mut inner: I = w.source();
+        records(&mut inner, n - k, show, &mut recs);
     }
     recs.join(";")
 }
@@ -343,9 +406,90 @@ fn run_owned_wi<X: ShowIdx, I: ExactSizeIterator<Item = (X, Dc)>>(
     (s, moved)
 }
 
+fn run_copy_split<X: ShowIdx, I: ExactSizeIterator<Item = u64>>(
+    make: impl FnOnce() -> WithIndex<I>,
+    k: usize,
+    n: usize,
+) -> String
+where
+    WithIndex<I>: ExactSizeIterator<Item = (X, u64)>,
+{
+    drive_split(make, k, n, |(i, v)| format!("{}@{}", v, i.show_idx()), |v| v.to_string())
+}
+
+fn run_ref_split<'a, X: ShowIdx, I: ExactSizeIterator<Item = &'a u64>>(
+    make: impl FnOnce() -> WithIndex<I>,
+    k: usize,
+    n: usize,
+    base: Base,
+) -> String
+where
+    WithIndex<I>: ExactSizeIterator<Item = (X, &'a u64)>,
+{
+    drive_split(make, k, n, |(i, r)| format!("{}@{}", base.cell(r), i.show_idx()), |r| base.cell(r))
+}
+
+fn run_mut_split<'a, X: ShowIdx, I: ExactSizeIterator<Item = &'a mut u64>>(
+    make: impl FnOnce() -> WithIndex<I>,
+    k: usize,
+    n: usize,
+    base: Base,
+) -> (String, Vec<usize>)
+where
+    WithIndex<I>: ExactSizeIterator<Item = (X, &'a mut u64)>,
+{
+    let refs: RefCell<Vec<&'a mut u64>> = RefCell::new(vec![]);
+    let s = drive_split(
+        make,
+        k,
+        n,
+        |(i, r)| {
+            let c = format!("{}@{}", base.cell(r), i.show_idx());
+            refs.borrow_mut().push(r);
+            c
+        },
+        |r| {
+            let c = base.cell(r);
+            refs.borrow_mut().push(r);
+            c
+        },
+    );
+    (s, write_all(refs.into_inner(), base))
+}
+
+fn run_owned_split<X: ShowIdx, I: ExactSizeIterator<Item = Dc>>(
+    make: impl FnOnce() -> WithIndex<I>,
+    k: usize,
+    n: usize,
+) -> (String, Vec<Dc>)
+where
+    WithIndex<I>: ExactSizeIterator<Item = (X, Dc)>,
+{
+    let moved: RefCell<Vec<Dc>> = RefCell::new(vec![]);
+    let s = drive_split(
+        make,
+        k,
+        n,
+        |(i, v)| {
+            let s = format!("{}@{}", v.show(), i.show_idx());
+            moved.borrow_mut().push(v);
+            s
+        },
+        |v| {
+            let s = v.show();
+            moved.borrow_mut().push(v);
+            s
+        },
+    );
+    (s, moved.into_inner())
+}
+
 /// After the moved-out values, the iterator and the leaf have all been dropped: every original
 /// value was dropped exactly once and every placeholder that was made was dropped.
-fn drops_report(total: usize) -> String {
+fn drops_report(total: usize, numeric: bool) -> String {
+    if !producer_ok(numeric) {
+        return " drops=BAD(wrong-producer)".into();
+    }
     for id in 0..total {
         if drops_of(id) != 1 {
             return format!(" drops=BAD(id{}x{})", id, drops_of(id));
@@ -361,6 +505,20 @@ fn drops_report(total: usize) -> String {
 fn show_left(vals: impl Iterator<Item = String>) -> String {
     let v: Vec<String> = vals.collect();
     format!("left={}", if v.is_empty() { "-".to_string() } else { v.join(",") })
+}
+
+/// the two ways of making a with-index iterator: the `with_index()` method or the `From` impl
+/// the two producers of placeholders: `from` (`Default`) and `from_numeric` (`ZeroOne::zero`)
+macro_rules! own {
+    ($numeric:expr, $($ty:ident)::+, $src:expr) => {
+        if $numeric { $($ty)::+::from_numeric($src) } else { $($ty)::+::from($src) }
+    };
+}
+
+macro_rules! wi {
+    ($into:expr, $e:expr) => {
+        if $into { WithIndex::from($e) } else { $e.with_index() }
+    };
 }
 
 // ---------------------------------------------------------------------------------------------
@@ -464,6 +622,16 @@ fn build_tensor<E: 'static, const D: usize>(
     leaf: &'static mut Tensor<E, D>,
     ads: &[TAd],
 ) -> Result<BoxT<E, D>, String> {
+    build_tensor_with(leaf, ads, true)
+}
+
+/// `panicking`: use the panicking constructors (`TensorAccess::from`, `TensorTranspose::from`)
+/// instead of the fallible ones (`try_from`); both must accept and reject the same requests.
+fn build_tensor_with<E: 'static, const D: usize>(
+    leaf: &'static mut Tensor<E, D>,
+    ads: &[TAd],
+    panicking: bool,
+) -> Result<BoxT<E, D>, String> {
     let mut src: BoxT<E, D> = Box::new(leaf);
     for ad in ads {
         src = match ad {
@@ -521,10 +689,18 @@ fn build_tensor<E: 'static, const D: usize>(
                     return Err("reject".into());
                 }
                 let names: [&'static str; D] = names_array(names);
-                match catch(move || TensorAccess::try_from(src, names)) {
-                    Ok(Ok(r)) => Box::new(r),
-                    Ok(Err(_)) => return Err("reject".into()),
-                    Err(k) => return Err(panic_str(k)),
+                if panicking {
+                    match catch(move || TensorAccess::from(src, names)) {
+                        Ok(r) => Box::new(r),
+                        Err(PanicKind::Explicit) => return Err("reject".into()),
+                        Err(k) => return Err(panic_str(k)),
+                    }
+                } else {
+                    match catch(move || TensorAccess::try_from(src, names)) {
+                        Ok(Ok(r)) => Box::new(r),
+                        Ok(Err(_)) => return Err("reject".into()),
+                        Err(k) => return Err(panic_str(k)),
+                    }
                 }
             }
             TAd::Transpose(names) => {
@@ -532,10 +708,18 @@ fn build_tensor<E: 'static, const D: usize>(
                     return Err("reject".into());
                 }
                 let names: [&'static str; D] = names_array(names);
-                match catch(move || TensorTranspose::try_from(src, names)) {
-                    Ok(Ok(r)) => Box::new(r),
-                    Ok(Err(_)) => return Err("reject".into()),
-                    Err(k) => return Err(panic_str(k)),
+                if panicking {
+                    match catch(move || TensorTranspose::from(src, names)) {
+                        Ok(r) => Box::new(r),
+                        Err(PanicKind::Explicit) => return Err("reject".into()),
+                        Err(k) => return Err(panic_str(k)),
+                    }
+                } else {
+                    match catch(move || TensorTranspose::try_from(src, names)) {
+                        Ok(Ok(r)) => Box::new(r),
+                        Ok(Err(_)) => return Err("reject".into()),
+                        Err(k) => return Err(panic_str(k)),
+                    }
                 }
             }
         };
@@ -570,6 +754,10 @@ struct Op<'a> {
     wi: bool,
     n: usize,
     via: &'a str,
+    /// make with-index iterators through `From`/`into()` instead of `with_index()`
+    into: bool,
+    /// after this many with-index calls take the wrapped iterator back with `source()`
+    split: Option<usize>,
 }
 
 fn parse_op<'a>(op: &'a str, rest: &[&'a str]) -> Op<'a> {
@@ -581,6 +769,8 @@ fn parse_op<'a>(op: &'a str, rest: &[&'a str]) -> Op<'a> {
         wi: opt_arg("wi", rest) == Some("1"),
         n: opt_arg("n", rest).map(|x| x.parse().unwrap()).unwrap_or(0),
         via: opt_arg("via", rest).unwrap_or("boxed"),
+        into: opt_arg("wvia", rest) == Some("into"),
+        split: opt_arg("split", rest).map(|x| x.parse().unwrap()),
     }
 }
 
@@ -597,6 +787,8 @@ fn tensor_u64<const D: usize>(shape: &[(&'static str, usize)], ads: &[TAd], op: 
     let leaf = Leaf::new(Tensor::from(shape, (0..total as u64).collect()));
     let base = Base(TensorRef::get_reference(leaf.get(), [0; D]).unwrap() as *const u64);
     let n = op.n;
+    let into = op.into;
+    let split = op.split.unwrap_or(0);
     let mut written: Option<Vec<usize>> = None;
     let recs: String = {
         // Safety: `t` and everything built from it die at the end of this block
@@ -604,41 +796,41 @@ fn tensor_u64<const D: usize>(shape: &[(&'static str, usize)], ads: &[TAd], op: 
         match (op.via, op.f, op.wi) {
             // inherent methods of Tensor
             ("tensor", "copy", false) => run_copy(|| t.iter(), n),
-            ("tensor", "copy", true) => run_copy_wi(|| t.iter().with_index(), n),
+            ("tensor", "copy", true) => run_copy_wi(|| wi!(into, t.iter()), n),
             ("tensor", "ref", false) => run_ref(|| t.iter_reference(), n, base),
-            ("tensor", "ref", true) => run_ref_wi(|| t.iter_reference().with_index(), n, base),
+            ("tensor", "ref", true) => run_ref_wi(|| wi!(into, t.iter_reference()), n, base),
             ("tensor", "mut", false) => {
                 let (s, w) = run_mut(|| t.iter_reference_mut(), n, base);
                 written = Some(w);
                 s
             }
             ("tensor", "mut", true) => {
-                let (s, w) = run_mut_wi(|| t.iter_reference_mut().with_index(), n, base);
+                let (s, w) = run_mut_wi(|| wi!(into, t.iter_reference_mut()), n, base);
                 written = Some(w);
                 s
             }
             // the iterator structs' own constructors on the container
             ("from", "copy", false) => run_copy(|| TensorIterator::from(&*t), n),
-            ("from", "copy", true) => run_copy_wi(|| TensorIterator::from(&*t).with_index(), n),
+            ("from", "copy", true) => run_copy_wi(|| wi!(into, TensorIterator::from(&*t)), n),
             ("from", "ref", false) => run_ref(|| TensorReferenceIterator::from(&*t), n, base),
-            ("from", "ref", true) => run_ref_wi(|| TensorReferenceIterator::from(&*t).with_index(), n, base),
+            ("from", "ref", true) => run_ref_wi(|| wi!(into, TensorReferenceIterator::from(&*t)), n, base),
             ("from", "mut", false) => {
                 let (s, w) = run_mut(|| TensorReferenceMutIterator::from(&mut *t), n, base);
                 written = Some(w);
                 s
             }
             ("from", "mut", true) => {
-                let (s, w) = run_mut_wi(|| TensorReferenceMutIterator::from(&mut *t).with_index(), n, base);
+                let (s, w) = run_mut_wi(|| wi!(into, TensorReferenceMutIterator::from(&mut *t)), n, base);
                 written = Some(w);
                 s
             }
             // TensorView over a borrowed tensor
             ("view", "copy", false) => { let v = TensorView::from(&*t); run_copy(|| v.iter(), n) }
-            ("view", "copy", true) => { let v = TensorView::from(&*t); run_copy_wi(|| v.iter().with_index(), n) }
+            ("view", "copy", true) => { let v = TensorView::from(&*t); run_copy_wi(|| wi!(into, v.iter()), n) }
             ("view", "ref", false) => { let v = TensorView::from(&*t); run_ref(|| v.iter_reference(), n, base) }
             ("view", "ref", true) => {
                 let v = TensorView::from(&*t);
-                run_ref_wi(|| v.iter_reference().with_index(), n, base)
+                run_ref_wi(|| wi!(into, v.iter_reference()), n, base)
             }
             ("view", "mut", false) => {
                 let mut v = TensorView::from(&mut *t);
@@ -648,7 +840,7 @@ fn tensor_u64<const D: usize>(shape: &[(&'static str, usize)], ads: &[TAd], op: 
             }
             ("view", "mut", true) => {
                 let mut v = TensorView::from(&mut *t);
-                let (s, w) = run_mut_wi(|| v.iter_reference_mut().with_index(), n, base);
+                let (s, w) = run_mut_wi(|| wi!(into, v.iter_reference_mut()), n, base);
                 written = Some(w);
                 s
             }
@@ -657,11 +849,11 @@ fn tensor_u64<const D: usize>(shape: &[(&'static str, usize)], ads: &[TAd], op: 
                 let names: [&'static str; D] = access_names(ads).expect("via=access needs one access adaptor");
                 match (f, wi) {
                     ("copy", false) => { let a = t.index_by(names); run_copy(|| a.iter(), n) }
-                    ("copy", true) => { let a = t.index_by(names); run_copy_wi(|| a.iter().with_index(), n) }
+                    ("copy", true) => { let a = t.index_by(names); run_copy_wi(|| wi!(into, a.iter()), n) }
                     ("ref", false) => { let a = t.index_by(names); run_ref(|| a.iter_reference(), n, base) }
                     ("ref", true) => {
                         let a = t.index_by(names);
-                        run_ref_wi(|| a.iter_reference().with_index(), n, base)
+                        run_ref_wi(|| wi!(into, a.iter_reference()), n, base)
                     }
                     ("mut", false) => {
                         let mut a = t.index_by_mut(names);
@@ -671,7 +863,7 @@ fn tensor_u64<const D: usize>(shape: &[(&'static str, usize)], ads: &[TAd], op: 
                     }
                     ("mut", true) => {
                         let mut a = t.index_by_mut(names);
-                        let (s, w) = run_mut_wi(|| a.iter_reference_mut().with_index(), n, base);
+                        let (s, w) = run_mut_wi(|| wi!(into, a.iter_reference_mut()), n, base);
                         written = Some(w);
                         s
                     }
@@ -685,11 +877,28 @@ fn tensor_u64<const D: usize>(shape: &[(&'static str, usize)], ads: &[TAd], op: 
                     Err(e) => return e,
                 };
                 match (via, f, wi) {
+                    // with index for `split` calls, then `source()` and on without index
+                    ("boxed", "copy", true) if op.split.is_some() => {
+                        run_copy_split(|| wi!(into, TensorIterator::from(&src)), split, n)
+                    }
+                    ("boxed", "ref", true) if op.split.is_some() => {
+                        run_ref_split(|| wi!(into, TensorReferenceIterator::from(&src)), split, n, base)
+                    }
+                    ("boxed", "mut", true) if op.split.is_some() => {
+                        let (s, w) = run_mut_split(
+                            || wi!(into, TensorReferenceMutIterator::from(&mut src)),
+                            split,
+                            n,
+                            base,
+                        );
+                        written = Some(w);
+                        s
+                    }
                     ("boxed", "copy", false) => run_copy(|| TensorIterator::from(&src), n),
-                    ("boxed", "copy", true) => run_copy_wi(|| TensorIterator::from(&src).with_index(), n),
+                    ("boxed", "copy", true) => run_copy_wi(|| wi!(into, TensorIterator::from(&src)), n),
                     ("boxed", "ref", false) => run_ref(|| TensorReferenceIterator::from(&src), n, base),
                     ("boxed", "ref", true) => {
-                        run_ref_wi(|| TensorReferenceIterator::from(&src).with_index(), n, base)
+                        run_ref_wi(|| wi!(into, TensorReferenceIterator::from(&src)), n, base)
                     }
                     ("boxed", "mut", false) => {
                         let (s, w) = run_mut(|| TensorReferenceMutIterator::from(&mut src), n, base);
@@ -698,7 +907,7 @@ fn tensor_u64<const D: usize>(shape: &[(&'static str, usize)], ads: &[TAd], op: 
                     }
                     ("boxed", "mut", true) => {
                         let (s, w) =
-                            run_mut_wi(|| TensorReferenceMutIterator::from(&mut src).with_index(), n, base);
+                            run_mut_wi(|| wi!(into, TensorReferenceMutIterator::from(&mut src)), n, base);
                         written = Some(w);
                         s
                     }
@@ -706,16 +915,16 @@ fn tensor_u64<const D: usize>(shape: &[(&'static str, usize)], ads: &[TAd], op: 
                         let mut v = TensorView::from(src);
                         match (f, wi) {
                             ("copy", false) => run_copy(|| v.iter(), n),
-                            ("copy", true) => run_copy_wi(|| v.iter().with_index(), n),
+                            ("copy", true) => run_copy_wi(|| wi!(into, v.iter()), n),
                             ("ref", false) => run_ref(|| v.iter_reference(), n, base),
-                            ("ref", true) => run_ref_wi(|| v.iter_reference().with_index(), n, base),
+                            ("ref", true) => run_ref_wi(|| wi!(into, v.iter_reference()), n, base),
                             ("mut", false) => {
                                 let (s, w) = run_mut(|| v.iter_reference_mut(), n, base);
                                 written = Some(w);
                                 s
                             }
                             ("mut", true) => {
-                                let (s, w) = run_mut_wi(|| v.iter_reference_mut().with_index(), n, base);
+                                let (s, w) = run_mut_wi(|| wi!(into, v.iter_reference_mut()), n, base);
                                 written = Some(w);
                                 s
                             }
@@ -742,33 +951,39 @@ fn tensor_owned<const D: usize>(shape: &[(&'static str, usize)], ads: &[TAd], op
     drops_reset();
     let make_leaf = || Tensor::from(shape, (0..total as u64).map(Dc::new).collect());
     let n = op.n;
+    let into = op.into;
+    let split = op.split.unwrap_or(0);
+    let (op_via, numeric) = match op.via.strip_suffix("_numeric") {
+        Some(v) => (v, true),
+        None => (op.via, false),
+    };
     // consuming forms: the container itself is moved into the iterator
-    if op.via == "tensor" || op.via == "view" {
+    if op_via == "tensor" || op_via == "view" {
         let t = make_leaf();
-        let (recs, moved) = match (op.via, op.wi) {
+        let (recs, moved) = match (op_via, op.wi) {
             ("tensor", false) => run_owned(move || t.iter_owned(), n),
-            ("tensor", true) => run_owned_wi(move || t.iter_owned().with_index(), n),
+            ("tensor", true) => run_owned_wi(move || wi!(into, t.iter_owned()), n),
             ("view", false) => run_owned(move || TensorView::from(t).iter_owned(), n),
-            (_, _) => run_owned_wi(move || TensorView::from(t).iter_owned().with_index(), n),
+            (_, _) => run_owned_wi(move || wi!(into, TensorView::from(t).iter_owned()), n),
         };
         drop(moved);
-        return format!("{}{}", recs, drops_report(total));
+        return format!("{}{}", recs, drops_report(total, numeric));
     }
     let leaf = Leaf::new(make_leaf());
     let (recs, moved) = {
         // Safety: `t` and everything built from it die at the end of this block
         let t: &'static mut Tensor<Dc, D> = unsafe { leaf.lend() };
-        match (op.via, op.wi) {
+        match (op_via, op.wi) {
             // source held by `&mut`
-            ("from", false) => run_owned(|| TensorOwnedIterator::from(&mut *t), n),
-            ("from", true) => run_owned_wi(|| TensorOwnedIterator::from(&mut *t).with_index(), n),
+            ("from", false) => run_owned(|| own!(numeric, TensorOwnedIterator, &mut *t), n),
+            ("from", true) => run_owned_wi(|| wi!(into, own!(numeric, TensorOwnedIterator, &mut *t)), n),
             ("access", wi) => {
                 let names: [&'static str; D] = access_names(ads).expect("via=access needs one access adaptor");
                 let a = t.index_by_mut(names);
                 if wi {
-                    run_owned_wi(move || TensorOwnedIterator::from(a).with_index(), n)
+                    run_owned_wi(move || wi!(into, own!(numeric, TensorOwnedIterator, a)), n)
                 } else {
-                    run_owned(move || TensorOwnedIterator::from(a), n)
+                    run_owned(move || own!(numeric, TensorOwnedIterator, a), n)
                 }
             }
             (via, wi) => {
@@ -777,11 +992,14 @@ fn tensor_owned<const D: usize>(shape: &[(&'static str, usize)], ads: &[TAd], op
                     Err(e) => return e,
                 };
                 match (via, wi) {
-                    ("boxed", false) => run_owned(move || TensorOwnedIterator::from(src), n),
-                    ("boxed", true) => run_owned_wi(move || TensorOwnedIterator::from(src).with_index(), n),
+                    ("boxed", true) if op.split.is_some() => {
+                        run_owned_split(move || wi!(into, own!(numeric, TensorOwnedIterator, src)), split, n)
+                    }
+                    ("boxed", false) => run_owned(move || own!(numeric, TensorOwnedIterator, src), n),
+                    ("boxed", true) => run_owned_wi(move || wi!(into, own!(numeric, TensorOwnedIterator, src)), n),
                     ("boxedview", false) => run_owned(move || TensorView::from(src).iter_owned(), n),
                     ("boxedview", true) => {
-                        run_owned_wi(move || TensorView::from(src).iter_owned().with_index(), n)
+                        run_owned_wi(move || wi!(into, TensorView::from(src).iter_owned()), n)
                     }
                     _ => return "bad-op".into(),
                 }
@@ -795,7 +1013,7 @@ fn tensor_owned<const D: usize>(shape: &[(&'static str, usize)], ads: &[TAd], op
     }
     drop(moved);
     drop(leaf);
-    format!("{}{}", recs, drops_report(total))
+    format!("{}{}", recs, drops_report(total, numeric))
 }
 
 fn shape_iter<const D: usize>(lens: &[usize], n: usize) -> String {
@@ -825,9 +1043,9 @@ macro_rules! matrix_kinds {
      rm: $rm:expr, cm: $cm:expr, row: $row:expr, col: $col:expr, diag: $diag:expr) => {
         match ($op.kind, $op.wi) {
             ("rowmajor", false) => $plain(|| $rm, $op.n $(, $extra)*),
-            ("rowmajor", true) => $wi(|| $rm.with_index(), $op.n $(, $extra)*),
+            ("rowmajor", true) => $wi(|| wi!($op.into, $rm), $op.n $(, $extra)*),
             ("colmajor", false) => $plain(|| $cm, $op.n $(, $extra)*),
-            ("colmajor", true) => $wi(|| $cm.with_index(), $op.n $(, $extra)*),
+            ("colmajor", true) => $wi(|| wi!($op.into, $cm), $op.n $(, $extra)*),
             ("row", _) => $plain(|| $row, $op.n $(, $extra)*),
             ("col", _) => $plain(|| $col, $op.n $(, $extra)*),
             ("diag", _) => $plain(|| $diag, $op.n $(, $extra)*),
@@ -841,6 +1059,9 @@ fn matrix_u64(rows: usize, cols: usize, ads: &[MAd], op: &Op) -> String {
     let leaf = Leaf::new(Matrix::from_flat_row_major((rows, cols), (0..total as u64).collect()));
     let base = Base(leaf.get().get_reference(0, 0) as *const u64);
     let a = op.a;
+    let into = op.into;
+    let split = op.split.unwrap_or(0);
+    let n = op.n;
     let mut written: Option<Vec<usize>> = None;
     let recs: String = {
         // Safety: `m` and everything built from it die at the end of this block
@@ -864,6 +1085,39 @@ fn matrix_u64(rows: usize, cols: usize, ads: &[MAd], op: &Op) -> String {
             (via, f) => {
                 let mut src = build_matrix(m, ads);
                 match (via, f) {
+                    ("from", "copy") if op.split.is_some() => match op.kind {
+                        "rowmajor" => run_copy_split(|| wi!(into, mi::RowMajorIterator::from(&src)), split, n),
+                        "colmajor" => run_copy_split(|| wi!(into, mi::ColumnMajorIterator::from(&src)), split, n),
+                        _ => return "bad-op".into(),
+                    },
+                    ("from", "ref") if op.split.is_some() => match op.kind {
+                        "rowmajor" => {
+                            run_ref_split(|| wi!(into, mi::RowMajorReferenceIterator::from(&src)), split, n, base)
+                        }
+                        "colmajor" => {
+                            run_ref_split(|| wi!(into, mi::ColumnMajorReferenceIterator::from(&src)), split, n, base)
+                        }
+                        _ => return "bad-op".into(),
+                    },
+                    ("from", "mut") if op.split.is_some() => {
+                        let (s, w) = match op.kind {
+                            "rowmajor" => run_mut_split(
+                                || wi!(into, mi::RowMajorReferenceMutIterator::from(&mut src)),
+                                split,
+                                n,
+                                base,
+                            ),
+                            "colmajor" => run_mut_split(
+                                || wi!(into, mi::ColumnMajorReferenceMutIterator::from(&mut src)),
+                                split,
+                                n,
+                                base,
+                            ),
+                            _ => return "bad-op".into(),
+                        };
+                        written = Some(w);
+                        s
+                    }
                     ("from", "copy") => matrix_kinds!(op, run_copy, run_copy_wi, [],
                         rm: mi::RowMajorIterator::from(&src), cm: mi::ColumnMajorIterator::from(&src),
                         row: mi::RowIterator::from(&src, a), col: mi::ColumnIterator::from(&src, a),
@@ -925,17 +1179,20 @@ fn matrix_owned(rows: usize, cols: usize, ads: &[MAd], op: &Op) -> String {
     drops_reset();
     let make_leaf = || Matrix::from_flat_row_major((rows, cols), (0..total as u64).map(Dc::new).collect());
     let n = op.n;
+    let into = op.into;
+    let split = op.split.unwrap_or(0);
+    let numeric = op.via.ends_with("_numeric");
     if op.via == "matrix" {
         let m = make_leaf();
         let (recs, moved) = match (op.kind, op.wi) {
             ("rowmajor", false) => run_owned(move || m.row_major_owned_iter(), n),
-            ("rowmajor", true) => run_owned_wi(move || m.row_major_owned_iter().with_index(), n),
+            ("rowmajor", true) => run_owned_wi(move || wi!(into, m.row_major_owned_iter()), n),
             ("colmajor", false) => run_owned(move || m.column_major_owned_iter(), n),
-            ("colmajor", true) => run_owned_wi(move || m.column_major_owned_iter().with_index(), n),
+            ("colmajor", true) => run_owned_wi(move || wi!(into, m.column_major_owned_iter()), n),
             _ => return "bad-op".into(),
         };
         drop(moved);
-        return format!("{}{}", recs, drops_report(total));
+        return format!("{}{}", recs, drops_report(total, numeric));
     }
     let leaf = Leaf::new(make_leaf());
     let (recs, moved) = {
@@ -943,11 +1200,17 @@ fn matrix_owned(rows: usize, cols: usize, ads: &[MAd], op: &Op) -> String {
         let m: &'static mut Matrix<Dc> = unsafe { leaf.lend() };
         let src = build_matrix(m, ads);
         match (op.kind, op.wi) {
-            ("rowmajor", false) => run_owned(move || mi::RowMajorOwnedIterator::from(src), n),
-            ("rowmajor", true) => run_owned_wi(move || mi::RowMajorOwnedIterator::from(src).with_index(), n),
-            ("colmajor", false) => run_owned(move || mi::ColumnMajorOwnedIterator::from(src), n),
+            ("rowmajor", true) if op.split.is_some() => {
+                run_owned_split(move || wi!(into, own!(numeric, mi::RowMajorOwnedIterator, src)), split, n)
+            }
+            ("colmajor", true) if op.split.is_some() => {
+                run_owned_split(move || wi!(into, own!(numeric, mi::ColumnMajorOwnedIterator, src)), split, n)
+            }
+            ("rowmajor", false) => run_owned(move || own!(numeric, mi::RowMajorOwnedIterator, src), n),
+            ("rowmajor", true) => run_owned_wi(move || wi!(into, own!(numeric, mi::RowMajorOwnedIterator, src)), n),
+            ("colmajor", false) => run_owned(move || own!(numeric, mi::ColumnMajorOwnedIterator, src), n),
             ("colmajor", true) => {
-                run_owned_wi(move || mi::ColumnMajorOwnedIterator::from(src).with_index(), n)
+                run_owned_wi(move || wi!(into, own!(numeric, mi::ColumnMajorOwnedIterator, src)), n)
             }
             _ => return "bad-op".into(),
         }
@@ -959,7 +1222,7 @@ fn matrix_owned(rows: usize, cols: usize, ads: &[MAd], op: &Op) -> String {
     }
     drop(moved);
     drop(leaf);
-    format!("{}{}", recs, drops_report(total))
+    format!("{}{}", recs, drops_report(total, numeric))
 }
 
 // ---------------------------------------------------------------------------------------------
@@ -1000,7 +1263,7 @@ impl Runner {
                         Err(_) => "reject".to_string(),
                         Ok(t) => {
                             let leaf = Leaf::new(t);
-                            let r = match build_tensor(unsafe { leaf.lend() }, &ads) {
+                            let r = match build_tensor_with(unsafe { leaf.lend() }, &ads, false) {
                                 Ok(src) => format!("ok shape={}", show_shape(&src.view_shape())),
                                 Err(e) => e,
                             };
@@ -1175,13 +1438,31 @@ fn random_tad(g: &mut Gen, shape: &[(&'static str, usize)]) -> Option<TAd> {
 }
 
 fn tensor_vias(ads: &[TAd], f: &str) -> Vec<&'static str> {
-    match ads {
+    let mut v = match ads {
         [] => vec!["tensor", "from", "view", "boxed", "boxedview"],
         [TAd::Access(_)] => vec!["access", "boxed", "boxedview"],
-        _ => {
-            let _ = f;
-            vec!["boxed", "boxedview"]
+        _ => vec!["boxed", "boxedview"],
+    };
+    if f == "owned" {
+        // the `from_numeric` constructors (placeholder = `ZeroOne::zero`)
+        v.push("boxed_numeric");
+        if ads.is_empty() {
+            v.push("from_numeric");
         }
+    }
+    v
+}
+
+/// how the with-index iterator is made: `with_index()` or `From`/`into()`
+fn wvia(g: &mut Gen, wi: bool) -> &'static str {
+    if wi && g.rng.chance(1, 2) {
+        g.count("withindex.via=into");
+        " wvia=into"
+    } else {
+        if wi {
+            g.count("withindex.via=method");
+        }
+        ""
     }
 }
 
@@ -1200,10 +1481,20 @@ fn emit_tensor_ops(g: &mut Gen, shape: &[(&'static str, usize)], ads: &[TAd], al
     for (f, wi) in combos {
         let vias = tensor_vias(ads, f);
         let via = *g.rng.pick(&vias);
-        g.op(format!("iter f={} wi={} n={} via={}", f, wi as u8, total + 3, via));
+        let w = wvia(g, wi);
+        g.op(format!("iter f={} wi={} n={} via={}{}", f, wi as u8, total + 3, via, w));
         g.count(&format!("tensor.iter.f={}.wi={}", f, wi as u8));
         g.count(&format!("tensor.via={}", via));
         g.count_n("tensor.records", (total + 3) as u64);
+    }
+    // `WithIndex::source()` mid-iteration: k calls with index, the rest without
+    for _ in 0..(if all { 2 } else { 1 }) {
+        let f = *g.rng.pick(&FLAVOURS);
+        let k = g.rng.below(total + 3);
+        let via = if f == "owned" && g.rng.chance(1, 2) { "boxed_numeric" } else { "boxed" };
+        let w = wvia(g, true);
+        g.op(format!("iter f={} wi=1 split={} n={} via={}{}", f, k, total + 3, via, w));
+        g.count(&format!("tensor.split.f={}", f));
     }
     // placeholders left behind after a prefix of an owned iteration, source held by &mut
     let ks: Vec<usize> = if all { vec![0, g.rng.below(total + 1), total, total + 2] } else { vec![g.rng.below(total + 2)] };
@@ -1388,7 +1679,7 @@ fn gen_shape_cases(g: &mut Gen) {
 
 fn matrix_vias(ads: &[MAd], f: &str) -> Vec<&'static str> {
     if f == "owned" {
-        if ads.is_empty() { vec!["matrix", "from"] } else { vec!["from"] }
+        if ads.is_empty() { vec!["matrix", "from", "from_numeric"] } else { vec!["from", "from_numeric"] }
     } else if ads.is_empty() {
         vec!["matrix", "from", "view"]
     } else {
@@ -1413,7 +1704,8 @@ fn emit_matrix_ops(g: &mut Gen, rows: usize, cols: usize, ads: &[MAd], all: bool
     }
     for (k, f, wi) in combos {
         let via = *g.rng.pick(&matrix_vias(ads, f));
-        g.op(format!("iter k={} f={} wi={} n={} via={}", k, f, wi as u8, total + 3, via));
+        let w = wvia(g, wi);
+        g.op(format!("iter k={} f={} wi={} n={} via={}{}", k, f, wi as u8, total + 3, via, w));
         g.count(&format!("matrix.iter.k={}.f={}.wi={}", k, f, wi as u8));
         g.count(&format!("matrix.via={}", via));
         g.count_n("matrix.records", (total + 3) as u64);
@@ -1439,8 +1731,16 @@ fn emit_matrix_ops(g: &mut Gen, rows: usize, cols: usize, ads: &[MAd], all: bool
     }
     for k in ["rowmajor", "colmajor"] {
         let n = g.rng.below(total + 2);
-        g.op(format!("left k={} n={} via=from", k, n));
+        let via = if g.rng.chance(1, 3) { "from_numeric" } else { "from" };
+        g.op(format!("left k={} n={} via={}", k, n, via));
         g.count("matrix.left");
+        // `WithIndex::source()` mid-iteration
+        let f = *g.rng.pick(&FLAVOURS);
+        let split = g.rng.below(total + 3);
+        let via = if f == "owned" && g.rng.chance(1, 2) { "from_numeric" } else { "from" };
+        let w = wvia(g, true);
+        g.op(format!("iter k={} f={} wi=1 split={} n={} via={}{}", k, f, split, total + 3, via, w));
+        g.count(&format!("matrix.split.f={}", f));
     }
 }
 
